@@ -261,3 +261,45 @@ class MappingStore(Spec):
 
 
 SPECS.append(MappingStore)
+
+
+class MappingNewOid(Spec):
+    """MappingStorage.new_oid (C20): old counter + 1, counter advanced, both inside one critical section of the
+    storage lock (the decorator); with OIDINV (counter >= every id present or issued: kept by store/tpc_finish,
+    bounded) the id is fresh - lemma C20.fresh."""
+    func = MS + '.new_oid'
+    props = ('C20',)
+
+    def setup(self, c, case=None):
+        lock = prims.new_lock(c, 'MappingStorage._lock', reentrant=True, held=0)
+        cnt = c.fresh_int('_oid')
+        me = inst(c, MS, _lock=lock, _opened=VBool(True), _oid=cnt)
+        c.ghost['no'] = {'lock': lock, 'cnt': cnt.t, 'me': me}
+        return {'self': me}
+
+    def requires(self, c, E):
+        return [('counter-in-range', z3.And(c.ghost['no']['cnt'] >= 0, c.ghost['no']['cnt'] < 2 ** 64 - 1))]
+
+    def hooks(self, c):
+        def on_set(cc, recv, name, v, node):
+            if name == '_oid':
+                cc.oblige('guarded._oid-written-under-the-storage-lock',
+                          cc.obj(cc.ghost['no']['lock']).f['held'] >= 1, node, assume_after=False)
+        return {'setattr': on_set}
+
+    def modifies(self, c, E):
+        return {(c.ghost['no']['me'].id, '_oid')}
+
+    def outcomes(self, c, E):
+        g = c.ghost['no']
+
+        def post(cc, E, r):
+            cur = cc.obj(g['me']).f['_oid']
+            return [('returns-old-counter-plus-one', isinstance(r, VBytes) and r.conc_len() == 8 and
+                     bytes_num(cc, r) == g['cnt'] + 1),
+                    ('counter-advanced', isinstance(cur, VInt) and cur.t == g['cnt'] + 1),
+                    ('lock-released', cc.obj(g['lock']).f['held'] == 0)]
+        return [Outcome('ok', post=post, result=lambda cc, E: cc.fresh_bytes(8, 'oid'))]
+
+
+SPECS.append(MappingNewOid)
